@@ -19,6 +19,11 @@ def cells(tier):
             out.append({"engine": "R", "what": "healthy", "kind": kind, "load": load})
     # a request of 0.85 x timeout that starts shortly after the previous heartbeat (sync: one heartbeat per accepted connection)
     out.append({"engine": "R", "what": "healthy", "kind": "sync", "load": "late-long-request", "timeout": 12})
+    # a sync worker that serves two listeners runs another main loop (run_for_multiple) with its own heartbeat calls
+    out.append({"engine": "R", "what": "hang", "kind": "sync", "mode": "app-block", "two_binds": True})
+    out.append({"engine": "R", "what": "hang", "kind": "sync", "mode": "sigstop", "two_binds": True})
+    out.append({"engine": "R", "what": "healthy", "kind": "sync", "load": "half-timeout-requests", "two_binds": True})
+    out.append({"engine": "R", "what": "healthy", "kind": "sync", "load": "idle", "two_binds": True})
     return out
 
 
@@ -29,8 +34,14 @@ def run_case(case):
     if case.get("mode") == "ignore-abrt":
         conf = ["import signal", "def post_worker_init(worker):", "    signal.signal(signal.SIGABRT, signal.SIG_IGN)"]
     T = case.get("timeout", 2)
+    second = None
+    if case.get("two_binds"):
+        import tempfile
+        second = os.path.join(tempfile.gettempdir(), "verif-c11-second-%d-%d.sock" % (os.getpid(), int(time.time() * 1000) % 100000))
+        classes.append("two-listeners")
     srv = renv.Server(kind=kind, workers=2 if case["what"] == "hang" else 1, bind="tcp", graceful=2, timeout=T,
-                      threads=2 if kind == "gthread" else None, conf_lines=conf, keepalive=1)
+                      threads=2 if kind == "gthread" else None, conf_lines=conf, keepalive=1,
+                      extra_binds=["unix:" + second] if second else ())
     vio = []
 
     def V(clause, sig, observed=None, expected=None):
@@ -86,7 +97,7 @@ def run_case(case):
                 V("hung-killed", "hung-worker-not-replaced:%s:%s" % (kind, mode), {"before": before, "after": srv.workers()},
                   "gone and replaced within timeout+6 s")
             elif replaced > T + 6:
-                V("hung-killed", "hung-worker-replaced-late:%s:%s" % (kind, mode), {"after_s": round(replaced, 2)}, "<= timeout+6 s")
+                V("hung-killed", "hung-worker-replaced-late:%s:%s%s" % (kind, mode, ":two-listeners" if case.get("two_binds") else ""), {"after_s": round(replaced, 2)}, "<= timeout+6 s")
             if others_ok == 0:
                 V("rest-keeps-serving", "nothing-served-while-a-worker-hangs:" + kind, None, "the other worker answers")
             if victim and renv.alive(victim):
@@ -97,7 +108,7 @@ def run_case(case):
                 time.sleep(0.3)
                 if renv.alive(victim) and victim in srv.workers():
                     V("hung-killed", "hung-worker-still-alive:%s:%s" % (kind, mode), {"pid": victim}, "killed")
-            return Outcome(vio, True, classes, key="R|hang|%s|%s" % (kind, mode), sample={"case": case, "replaced_after": replaced})
+            return Outcome(vio, True, classes, key="R|hang|%s|%s|%s" % (kind, mode, bool(case.get("two_binds"))), sample={"case": case, "replaced_after": replaced})
         # ---- healthy workers are never killed
         before = srv.workers()
         load = case["load"]
@@ -142,6 +153,11 @@ def run_case(case):
         if bad and not vio:
             V("healthy-serves", "requests-failed-on-healthy-worker:%s:%s" % (kind, load), {"bad": len(bad), "of": len(results), "first": bad[0]},
               "all answered")
-        return Outcome(vio, load != "idle", classes, key="R|healthy|%s|%s" % (kind, load), sample={"case": case, "requests": len(results)})
+        return Outcome(vio, load != "idle", classes, key="R|healthy|%s|%s|%s" % (kind, load, bool(case.get("two_binds"))), sample={"case": case, "requests": len(results)})
     finally:
         srv.cleanup()
+        if second:
+            try:
+                os.unlink(second)
+            except OSError:
+                pass
